@@ -50,12 +50,14 @@ Definition prop_case (inp obs : list Z) : Z :=
 Definition nontrivial_case (inp : list Z) : bool :=
   (1 <? Z.of_nat (length (o_events (model_obs (decode inp))))).
 
-(* known finding D6: every other clause holds and some Evict call takes a victim that
-   releases nothing of what its task is still short of *)
+(* known finding D6: the implementation's whole observable equals the faithful model's, every
+   other clause holds and some Evict call takes a victim that releases nothing of what its task
+   is still short of *)
 Definition finding_sig (inp obs : list Z) : Z :=
   let i := decode inp in
   let o := dec_obs (i_nt i) obs in
-  if eq_listZ (enc_obs o) obs
+  if eq_listZ (run_case inp) obs
+     && eq_listZ (enc_obs o) obs
      && (safe_code (i_tasks i) (i_nt i) (i_nr i) o =? 0)
      && negb (useful_code (i_tasks i) o =? 0)
   then 1 else 0.
